@@ -94,6 +94,28 @@ def generate(rng, tier):
             if fam == "sub" and lk == "U" and rk == "U" and r < 0.7 and a < b:
                 a, b = b, a
             yield Case("form", [fam, lk, rk, hx(a), hx(b)])
+        # carry / borrow chains between heap operands of DIFFERENT lengths (each ownership form has its
+        # own buffer-reuse path: in-place on the left buffer, on the right buffer, allocate-new)
+        if rk != "S":
+            for _ in range(6 if tier == "quick" else 120):
+                la, lb = rng.choice([(3, 4), (4, 3), (3, 5), (5, 3), (4, 7), (7, 4), (3, 3), (6, 9), (9, 6)])
+                lo = min(la, lb)
+                a = nat_pattern(rng, la, rng.choice(["random", "ones", "highbit", "topone"]))
+                b = nat_pattern(rng, lb, rng.choice(["random", "ones", "highbit", "topone"]))
+                if rng.random() < 0.7:
+                    # force a carry out of the low `lo` words: low parts sum to >= B^lo
+                    mask = (1 << (64 * lo)) - 1
+                    a |= mask
+                    b |= rng.getrandbits(64 * lo) | 1
+                if rng.random() < 0.3:
+                    a |= (1 << (64 * max(la, lb))) - 1 if la >= lb else a     # carry ripples through the longer one
+                if lk == "I" and rng.random() < 0.5:
+                    a = -a
+                if rk == "I" and rng.random() < 0.5:
+                    b = -b
+                if fam == "sub" and lk == "U" and rk == "U" and a < b:
+                    a, b = b, a
+                yield Case("form", [fam, lk, rk, hx(a), hx(b)])
     m = 60 if tier == "quick" else 1500
     for _ in range(m):
         a = nat_pattern(rng, rng.choice([0, 1, 2, 3, 4, 9, 40]), rng.choice(PATTERNS))
